@@ -196,7 +196,19 @@ func (e *Entry) Modules() *Modules {
 	for e.Parent != nil {
 		e = e.Parent
 	}
-	return e.Node.(*Module).Modules
+	// The root of a module tree is a module; an entry that stands alone
+	// (e.g., one of the Deviations of a module) is found through the module
+	// its node was defined in.
+	if m, ok := e.Node.(*Module); ok {
+		return m.Modules
+	}
+	if e.Node == nil {
+		return nil
+	}
+	if m := RootNode(e.Node); m != nil {
+		return m.Modules
+	}
+	return nil
 }
 
 // IsDir returns true if e is a directory.
@@ -1444,7 +1456,7 @@ func (e *Entry) Find(name string) *Entry {
 					mod.NName(), e.Path()))
 				return nil
 			}
-			if m != e.Node.(*Module) {
+			if root, ok := e.Node.(*Module); !ok || m != root {
 				e = ToEntry(m)
 			}
 		}
@@ -1549,7 +1561,11 @@ func (e *Entry) InstantiatingModule() (string, error) {
 		return "", fmt.Errorf("entry %s had nil namespace", e.Name)
 	}
 
-	module, err := e.Modules().FindModuleByNamespace(n.Name)
+	ms := e.Modules()
+	if ms == nil {
+		return "", fmt.Errorf("entry %s does not belong to a set of modules", e.Name)
+	}
+	module, err := ms.FindModuleByNamespace(n.Name)
 	if err != nil {
 		return "", fmt.Errorf("could not find module %q when retrieving namespace for %s: %v", n.Name, e.Name, err)
 	}
